@@ -12,7 +12,7 @@ EXPLANATION = (
     "tree: (R1, units engine) every factor applied to P,q,A,b is applied to the same power to the recorded d,e,c "
     "and dinv/einv are the inverses - checked inductively over one Ruiz iteration with opaque symbols, the cost "
     "scaling and the rectification pass; (R2) each work scaling is clipped with bounds (min/cum, max/cum) between its "
-    "computation and its application; (R3) zero rows/columns map to 1 before rsqrt for both work vectors; (R4) "
+    "computation and its application, the bounds being recomputed from the cumulative scaling inside the loop; (R3) zero rows/columns map to 1 before rsqrt for both work vectors; (R4) "
     "rectify_equilibration: Zero/Nonnegative cones return identity+false, every other cone type returns "
     "e^-1*mean(e) + true (exhaustive over impl Cone), the composite applies each cone to its own slice of both "
     "arguments and ORs the results, and equilibrate re-applies the rectification to A, b and e before forming the "
